@@ -254,3 +254,291 @@ Proof.
   split; [vm_compute; reflexivity|].
   split; vm_compute; reflexivity.
 Qed.
+
+(** * Part b: compaction input selection is closed; installing the outputs keeps the version well formed *)
+From RainVerif.proofs Require Import KeyProofs SelectProofs.
+Open Scope N_scope.
+
+
+(** 1. levels >= 1: exactly the files of the level not entirely before [lo] / after [hi] by
+    user key, in level order *)
+Theorem C07b_overlapping_inputs_spec : forall v l lo hi,
+  l <> O ->
+  (forall f, In f (overlapping_inputs v l lo hi) <->
+             In f (level_files v l)
+             /\ ~ (exists k, lo = Some k /\ ult (ik_user (fm_large f)) (ik_user k))
+             /\ ~ (exists k, hi = Some k /\ ult (ik_user k) (ik_user (fm_small f))))
+  /\ overlapping_inputs v l lo hi
+     = filter (in_range (option_map ik_user lo) (option_map ik_user hi)) (level_files v l).
+Proof. exact overlapping_inputs_spec. Qed.
+Print Assumptions C07b_overlapping_inputs_spec.
+
+(** 2. level 0: [oci_fuel] suffices; the answer is exactly the set of level-0 files meeting a
+    widened range [lo' <= lo], [hi <= hi'] out of which no selected file sticks; it is closed *)
+Theorem C07b_overlapping_inputs_l0_closed : forall v lo hi,
+  let fs := level_files v O in
+  let res := overlapping_inputs v O lo hi in
+  (exists lo' hi',
+     ole lo' (option_map ik_user lo) /\ oge hi' (option_map ik_user hi)
+     /\ res = filter (in_range lo' hi') fs
+     /\ (forall f, In f res -> inside lo' hi' f))
+  /\ hull_closed fs res.
+Proof. exact overlapping_inputs_l0_closed. Qed.
+Print Assumptions C07b_overlapping_inputs_l0_closed.
+
+(** 3. the repaired key range functions *)
+Theorem C07b_key_range_covers_files : forall fs,
+  fs <> [] ->
+  exists a b, key_range_for_files true fs = Some (a, b) /\ is_krange fs a b
+              /\ hull fs = Some (ik_user a, ik_user b).
+Proof. exact key_range_covers_files. Qed.
+Print Assumptions C07b_key_range_covers_files.
+
+Theorem C07b_key_range_covers_two : forall fs gs,
+  fs <> [] ->
+  exists a b, key_range_for_two true fs gs = Some (a, b) /\ is_krange (fs ++ gs) a b
+              /\ hull (fs ++ gs) = Some (ik_user a, ik_user b).
+Proof. exact key_range_covers_two. Qed.
+Print Assumptions C07b_key_range_covers_two.
+
+Definition kk (u s : N) : ikey := mkIKey [u] s OP_PUT.
+Definition fm (n u1 s1 u2 s2 : N) : fmeta := mkFM n 100 (kk u1 s1) (kk u2 s2).
+Definition MFS : N := 1000000.
+
+(** sensitivity: the pinned comparison ([d1fix = false]) does not compute the hull *)
+Theorem C07_key_range_min_bug_refuted :
+  exists fs, hull fs <> option_map (fun r => (ik_user (fst r), ik_user (snd r)))
+                                   (key_range_for_files false fs).
+Proof. exact key_range_min_bug_refuted. Qed.
+Print Assumptions C07_key_range_min_bug_refuted.
+
+(** 4. [finalize_compaction_inputs] of the current code ([d14fix = true]: boundary files are
+    added to the re-selected parent files of the expansion path, as in LevelDB) selects closed
+    inputs on both of its paths, including the boundary closure of the parent inputs *)
+Theorem C07b_finalize_inputs_closed : forall mfs v level seed c,
+  version_wf v = true ->
+  (S level < length v)%nat ->
+  seed <> [] ->
+  (forall f, In f seed -> In f (level_files v level)) ->
+  (level = O -> hull_closed (level_files v O) seed) ->
+  finalize_inputs true true mfs v level seed = Some c ->
+  inputs_closed v seed c = true.
+Proof. exact finalize_inputs_closed. Qed.
+Print Assumptions C07b_finalize_inputs_closed.
+
+Theorem C07b_finalize_inputs_total : forall mfs v level seed,
+  version_wf v = true ->
+  seed <> [] ->
+  (forall f, In f seed -> In f (level_files v level)) ->
+  (level = O -> hull_closed (level_files v O) seed) ->
+  exists c, finalize_inputs true true mfs v level seed = Some c /\ inputs_closed v seed c = true.
+Proof. exact finalize_inputs_total. Qed.
+Print Assumptions C07b_finalize_inputs_total.
+
+(** for either value of [d14fix]: no panic, and everything but the boundary conjunct
+    ([inputs_closed = inputs_closed_nb && parent_boundary_closed_b]) *)
+Theorem C07b_finalize_inputs_no_panic : forall d14 mfs v level seed,
+  seed <> [] -> finalize_inputs true d14 mfs v level seed <> None.
+Proof. exact finalize_inputs_no_panic. Qed.
+Print Assumptions C07b_finalize_inputs_no_panic.
+
+Theorem C07b_inputs_closed_split : forall v seed c,
+  inputs_closed v seed c = inputs_closed_nb v seed c && parent_boundary_closed_b v c.
+Proof. exact inputs_closed_split. Qed.
+Print Assumptions C07b_inputs_closed_split.
+
+Theorem C07b_finalize_inputs_closed_partial : forall d14 mfs v level seed c,
+  version_wf v = true ->
+  seed <> [] ->
+  (forall f, In f seed -> In f (level_files v level)) ->
+  (level = O -> hull_closed (level_files v O) seed) ->
+  finalize_inputs true d14 mfs v level seed = Some c ->
+  inputs_closed_nb v seed c = true.
+Proof. exact finalize_inputs_closed_nb. Qed.
+Print Assumptions C07b_finalize_inputs_closed_partial.
+
+(** sensitivity: the pinned expansion path ([d14fix = false]) violates the boundary conjunct *)
+Theorem C07_expansion_boundary_refuted :
+  exists v level seed c,
+    version_wf v = true /\ seed <> [] /\ (forall f, In f seed -> In f (level_files v level))
+    /\ level <> O
+    /\ finalize_inputs true false 1000000 v level seed = Some c
+    /\ inputs_closed_nb v seed c = true
+    /\ inputs_closed v seed c = false.
+Proof. exact expansion_boundary_refuted. Qed.
+Print Assumptions C07_expansion_boundary_refuted.
+
+(** the parent files that are not inputs lie entirely below or entirely above all inputs in
+    internal-key order *)
+Theorem C07b_finalize_inputs_separated : forall d14 mfs v level seed c,
+  version_wf v = true ->
+  finalize_inputs true d14 mfs v level seed = Some c ->
+  separated v c
+  /\ (forall f, In f (ci_in1 c) -> In f (level_files v (S (ci_level c)))).
+Proof. exact finalize_inputs_separated. Qed.
+Print Assumptions C07b_finalize_inputs_separated.
+
+(** [add_boundary_inputs]: the fuel suffices; on the base path the parent inputs are closed
+    under boundary files (this is what the tombstone drop rule relies on) *)
+Theorem C07b_add_boundary_inputs_complete : forall lf M,
+  (forall f, In f lf -> ordered f) -> M <> [] ->
+  exists k, (forall f, In f (add_boundary_inputs lf M) -> ikey_le (fm_large f) k)
+            /\ (exists m, In m (add_boundary_inputs lf M) /\ fm_large m = k)
+            /\ forall b, In b lf -> ~ cand k b.
+Proof. exact add_boundary_inputs_complete. Qed.
+Print Assumptions C07b_add_boundary_inputs_complete.
+
+Theorem C07b_parent_inputs_boundary_closed : forall v level (r0 : ikey * ikey),
+  version_wf v = true ->
+  boundary_closed (level_files v (S level))
+    (add_boundary_inputs (level_files v (S level))
+       (overlapping_inputs v (S level) (Some (fst r0)) (Some (snd r0)))).
+Proof. exact parent_inputs_boundary_closed. Qed.
+Print Assumptions C07b_parent_inputs_boundary_closed.
+
+(** with the repair D14 of the expansion path ([d14fix = true]), on both paths *)
+Theorem C07b_finalize_inputs_parent_boundary_closed : forall mfs v level seed c,
+  version_wf v = true ->
+  finalize_inputs true true mfs v level seed = Some c ->
+  boundary_closed (level_files v (S (ci_level c))) (ci_in1 c).
+Proof. exact finalize_inputs_parent_boundary_closed. Qed.
+Print Assumptions C07b_finalize_inputs_parent_boundary_closed.
+
+(** 5. installing the outputs of a compaction: the overlap assertion of [maybe_add_file] does
+    not fire and the new version is well formed *)
+Theorem C07b_apply_edit_compaction_wf_gen : forall v c outs,
+  version_wf v = true ->
+  (forall f, In f (ci_in1 c) -> In f (level_files v (S (ci_level c)))) ->
+  separated v c ->
+  outs_ok v c outs ->
+  exists v', apply_edit v (compaction_edit c outs) = Some v' /\ version_wf v' = true.
+Proof. exact apply_edit_compaction_wf_gen. Qed.
+Print Assumptions C07b_apply_edit_compaction_wf_gen.
+
+Theorem C07b_apply_edit_compaction_wf : forall d14 mfs v level seed c outs,
+  version_wf v = true ->
+  finalize_inputs true d14 mfs v level seed = Some c ->
+  outs_ok v c outs ->
+  exists v', apply_edit v (compaction_edit c outs) = Some v' /\ version_wf v' = true.
+Proof. exact apply_edit_compaction_wf. Qed.
+Print Assumptions C07b_apply_edit_compaction_wf.
+
+(** 6. Non-vacuity: three overlapping level-0 files over a three-file level 1 in which files 4
+    and 5 share the boundary user key 3 *)
+Definition v6 : version :=
+  [[fm 1 1 20 5 21; fm 2 4 22 8 23; fm 3 7 24 9 25];
+   [fm 4 1 9 3 5; fm 5 3 4 6 2; fm 6 8 3 9 1]; []; []; []; []; []].
+Definition seed6 := overlapping_inputs v6 0 (Some (kk 1 MAX_SEQ)) (Some (kk 2 0)).
+Definition nums (c : cinputs) := (map fm_num (ci_in0 c), map fm_num (ci_in1 c)).
+
+Example C07b_ex_l0_selection :
+  version_wf v6 = true /\ map fm_num seed6 = [1; 2; 3]
+  /\ option_map (fun c => (nums c, inputs_closed v6 seed6 c)) (finalize_inputs true true MFS v6 0 seed6)
+     = Some (([1; 2; 3], [4; 5; 6]), true).
+Proof. vm_compute. auto. Qed.
+
+Example C07b_ex_l0_install :
+  match finalize_inputs true true MFS v6 0 seed6 with
+  | Some c => option_map (fun v' => (version_wf v', map (map fm_num) v'))
+                         (apply_edit v6 (compaction_edit c [fm 7 1 20 4 1; fm 8 4 0 9 1]))
+  | None => None
+  end = Some (true, [[]; [7; 8]; []; []; []; []; []]).
+Proof. vm_compute. reflexivity. Qed.
+
+(** a level-1 seed: file 2 joins file 1 as a boundary file (user key 3), and parent file 6 joins
+    parent file 5 as a boundary file (user key 7) *)
+Definition v7 : version :=
+  [[]; [fm 1 1 9 3 5; fm 2 3 4 6 2; fm 3 8 9 9 9];
+   [fm 4 2 1 3 1; fm 5 6 1 7 1; fm 6 7 0 8 1; fm 9 9 1 9 0]; []; []; []; []].
+Example C07b_ex_boundary_files :
+  version_wf v7 = true
+  /\ option_map (fun c => (nums c, inputs_closed v7 [fm 1 1 9 3 5] c))
+                (finalize_inputs true true MFS v7 1 [fm 1 1 9 3 5])
+     = Some (([1; 2], [4; 5; 6]), true).
+Proof. vm_compute. auto. Qed.
+
+(** ** why the hypotheses of 5 are what they are *)
+
+(** outputs within the USER-key hull of the inputs are not enough: the remaining parent file 2
+    ends at 21@9, the parent input 3 starts at 21@5, and an output starting at 21@10 overlaps
+    file 2 although its user keys lie in the hull [21, 24] of the inputs *)
+Definition v8 : version :=
+  [[]; [fm 1 22 7 23 7]; [fm 2 16 9 21 9; fm 3 21 5 24 1]; []; []; []; []].
+Example C07b_user_hull_of_outputs_insufficient :
+  version_wf v8 = true /\
+  match finalize_inputs true true MFS v8 1 [fm 1 22 7 23 7] with
+  | Some c => (nums c, hull (ci_in0 c ++ ci_in1 c), hull [fm 4 21 10 24 1],
+               apply_edit v8 (compaction_edit c [fm 4 21 10 24 1]))
+  | None => (([], []), None, None, None)
+  end = (([1], [3]), Some ([21], [24]), Some ([21], [24]), None).
+Proof. vm_compute. auto. Qed.
+
+(** [inputs_closed] alone is not enough: parent inputs with a gap (files 2 and 4 without file 3)
+    are closed, yet their merged output overlaps file 3 *)
+Definition v9 : version :=
+  [[]; [fm 1 30 9 31 9]; [fm 2 1 9 2 9; fm 3 10 9 11 9; fm 4 30 5 32 5]; []; []; []; []].
+Definition c9 := mkCI 1 [fm 1 30 9 31 9] [fm 2 1 9 2 9; fm 4 30 5 32 5] [] None.
+Example C07b_closed_inputs_insufficient :
+  version_wf v9 = true /\ inputs_closed v9 [fm 1 30 9 31 9] c9 = true
+  /\ apply_edit v9 (compaction_edit c9 [fm 5 1 9 32 5]) = None.
+Proof. vm_compute. auto. Qed.
+
+(** ** FINDING D14: on the expanded path of the pinned code ([d14fix = false]) the parent
+    inputs are NOT closed under boundary files ([manifest.rs] adds boundary files to
+    [expanded0] a second time instead of to [expanded1]): parent file 4 (largest 20@5) is an
+    input, its neighbour 5 (smallest 20@3, same user key) is not *)
+Definition vx : version :=
+  [[]; [fm 1 4 9 6 9; fm 2 10 9 12 9]; [fm 3 1 9 4 8; fm 4 5 9 20 5; fm 5 20 3 25 1];
+   []; []; []; []].
+Example C07b_expanded_parent_boundary_missing :
+  version_wf vx = true /\
+  option_map (fun c => (nums c, inputs_closed_nb vx [fm 2 10 9 12 9] c,
+                        inputs_closed vx [fm 2 10 9 12 9] c))
+             (finalize_inputs true false MFS vx 1 [fm 2 10 9 12 9])
+  = Some (([1; 2], [3; 4]), true, false)
+  /\ ~ boundary_closed (level_files vx 2) [fm 3 1 9 4 8; fm 4 5 9 20 5].
+Proof.
+  split; [vm_compute; reflexivity|]. split; [vm_compute; reflexivity|].
+  intros H. apply (H (fm 4 5 9 20 5) (fm 5 20 3 25 1)).
+  - right. left. reflexivity.
+  - right. right. left. reflexivity.
+  - intros [E|[E|[]]]; discriminate.
+  - split; reflexivity.
+Qed.
+
+(** after the repair the expansion is refused here (three parent files instead of two) and the
+    base selection {2} + {4, 5} is used *)
+Example C07b_expanded_parent_boundary_repaired :
+  option_map (fun c => (nums c, inputs_closed vx [fm 2 10 9 12 9] c))
+             (finalize_inputs true true MFS vx 1 [fm 2 10 9 12 9]) = Some (([2], [4; 5]), true).
+Proof. vm_compute. reflexivity. Qed.
+
+(** ... with the consequence, in the LSM state machine (repaired key range, no panic, the
+    state invariant [lsm_wf_b] holds before and after): a deleted key comes back. The last
+    compaction takes the expanded path with inputs {8, 10} + {4, 5}; file 5 holds the
+    tombstone 20@7 and 20@6, file 6 (left out) holds 20@5. *)
+Definition steps_before : list step :=
+  [ SWrite [WPut [1] [11]; WPut [4] [11]; WPut [5] [11]; WPut [25] [11]; WPut [20] [33]];
+    SSnapshot;
+    SWrite [WPut [20] [55]; WDel [20]];
+    SRotate; SFlush;
+    SCompact 2 [3] [1%nat; 2%nat];
+    SRelease 5;
+    SWrite [WPut [4] [12]; WPut [6] [12]]; SRotate; SFlush;
+    SWrite [WPut [10] [12]; WPut [12] [12]]; SRotate; SFlush ].
+Definition steps_after : list step := steps_before ++ [SCompact 2 [10] []].
+
+Example C07b_expanded_path_resurrects_deleted_key :
+  let s := lsm_run true false MFS steps_before in
+  let s' := lsm_run true false MFS steps_after in
+  lsm_wf_b s = true /\ lsm_wf_b s' = true /\ l_panic s' = false
+  /\ map (map fm_num) (l_ver s) = [[]; []; [8; 10]; [4; 5; 6]; []; []; []]
+  /\ map (map fm_num) (l_ver s') = [[]; []; []; [11; 6]; []; []; []]
+  /\ db_get s [20] = None
+  /\ db_get s' [20] = Some [33].
+Proof. vm_compute. repeat split; reflexivity. Qed.
+
+Example C07b_expanded_path_repaired_keeps_key_deleted :
+  let s' := lsm_run true true MFS steps_after in
+  lsm_wf_b s' = true /\ l_panic s' = false /\ db_get s' [20] = None.
+Proof. vm_compute. repeat split; reflexivity. Qed.
